@@ -36,21 +36,30 @@ Proof.
   intros v dup qos retain b body Hq Hd H Hb. unfold parse_publish in H.
   destruct (read_utf8_string true b) as [[topic b1]| | |] eqn:E1; cbn [bind] in H; try discriminate.
   apply read_utf8_string_inv in E1; [|assumption]. destruct E1 as (Hl & _ & Hb1 & Hu).
-  destruct (valid_topic_name_impl true topic) as [[|]| | |] eqn:En; cbn [bind negb] in H; try discriminate.
-  destruct (if 0 <? qos then read_uint16 b1 else Ok (0, b1)) as [[pid b2]| | |] eqn:E2; cbn [bind] in H; try discriminate.
-  assert (Hpid : pid < 65536 /\ (qos = 0 -> pid = 0) /\ bytes_ok b2).
+  assert (Hname : topic = [] \/ impl_name topic = true /\ True).
+  { destruct topic as [|c t]; [left; reflexivity|right]. rewrite len_cons in H.
+    replace (1 + len t =? 0) with false in H by lia.
+    destruct (valid_topic_name_impl true (c :: t)) as [[|]| | |] eqn:En; cbn [bind negb] in H; try discriminate.
+    split; [|exact I]. unfold impl_name. rewrite En. reflexivity. }
+  destruct (if len topic =? 0 then Ok true else valid_topic_name_impl true topic) as [[|]| | |];
+    cbn [bind negb] in H; try discriminate.
+  destruct (if 0 <? qos then _ else _) as [[pid b2]| | |] eqn:E2; cbn [bind] in H; try discriminate.
+  assert (Hpid : pid < 65536 /\ (qos = 0 -> pid = 0) /\ (qos <> 0 -> pid <> 0) /\ bytes_ok b2).
   { destruct (N.ltb_spec 0 qos).
-    - apply read_uint16_inv in E2; [|assumption]. destruct E2. split; [assumption|]. split; [lia|assumption].
-    - inversion E2; subst. split; [lia|]. split; [reflexivity|assumption]. }
-  destruct Hpid as (Hp & Hp0 & Hb2).
+    - destruct (read_uint16 b1) as [[i b']| | |] eqn:Er; cbn [bind] in E2; try discriminate.
+      apply read_uint16_inv in Er; [|assumption]. destruct Er.
+      destruct (N.eqb_spec i 0); [discriminate|]. inversion E2; subst.
+      split; [assumption|]. split; [lia|]. split; [intros _; assumption|assumption].
+    - inversion E2; subst. split; [lia|]. split; [reflexivity|]. split; [lia|assumption]. }
+  destruct Hpid as (Hp & Hp0 & Hp1 & Hb2).
   destruct (if v =? 5 then _ else _) as [[pr b3]| | |] eqn:E3; cbn [bind] in H; try discriminate.
   apply oprops_dec in E3; [|assumption]. destruct E3 as [Hpr Hb3].
   destruct ((len topic =? 0) && _) eqn:Etok; [discriminate|].
   inversion H; subst. split; [|eauto 8].
-  cbn [dec_inv]. repeat split; auto.
-  - unfold istr_ok. rewrite Hu by reflexivity. lia.
-  - unfold impl_name. rewrite En. reflexivity.
-  - unfold pub_topic_ok. rewrite Etok. reflexivity.
+  cbn [dec_inv]. split; [reflexivity|]. split; [assumption|]. split; [assumption|].
+  split; [unfold istr_ok; rewrite Hu by reflexivity; lia|].
+  split; [tauto|]. split; [assumption|]. split; [assumption|]. split; [assumption|]. split; [assumption|].
+  unfold pub_topic_ok. rewrite Etok. reflexivity.
 Qed.
 
 Lemma ack_tail_dec : forall ctx b code pr,
@@ -78,9 +87,11 @@ Proof.
     apply read_byte_inv in E2; [|assumption]. destruct E2 as (Hc & Hb2 & _).
     destruct (props_unpack t b2) as [[p r]| | |] eqn:E3; cbn [bind] in H; try discriminate.
     apply props_unpack_inv in E3; [|assumption].
+    destruct (negb (is_empty r)); [discriminate|].
     inversion H; subst. split; [|eauto]. cbn [dec_inv]. repeat split; auto. right. rewrite Ev. repeat split; auto.
     exists p. tauto.
-  - inversion H; subst. split; [|eauto]. cbn [dec_inv]. repeat split; auto. left. auto.
+  - cbn [bind] in H. destruct (negb (is_empty b1)); [discriminate|].
+    inversion H; subst. split; [|eauto]. cbn [dec_inv]. repeat split; auto. left. auto.
 Qed.
 
 Lemma parse_pubrel_inv : forall v rl b body,
@@ -95,6 +106,7 @@ Proof.
   apply read_byte_inv in E2; [|assumption]. destruct E2 as (Hc & Hb2 & _).
   destruct (props_unpack PUBREL b2) as [[p r]| | |] eqn:E3; cbn [bind] in H; try discriminate.
   apply props_unpack_inv in E3; [|assumption].
+  destruct (negb (is_empty r)); [discriminate|].
   inversion H; subst. split; [|eauto]. cbn [dec_inv]. split; auto. right. repeat split; auto. exists p. tauto.
 Qed.
 
@@ -108,12 +120,10 @@ Proof.
   destruct (0 <? _); [discriminate|].
   destruct (read_byte b1) as [[c b2]| | |] eqn:E2; cbn [remap bind] in H; try discriminate.
   apply read_byte_inv in E2; [|assumption]. destruct E2 as (Hc & Hb2 & _).
-  destruct (v =? 5) eqn:Ev.
-  - destruct (props_unpack CONNACK b2) as [[p r]| | |] eqn:E3; cbn [bind] in H; try discriminate.
-    apply props_unpack_inv in E3; [|assumption].
-    inversion H; subst. split; [|eauto]. cbn [dec_inv]. unfold oprops_inv. rewrite Ev.
-    repeat split; auto. exists p. tauto.
-  - inversion H; subst. split; [|eauto]. cbn [dec_inv]. unfold oprops_inv. rewrite Ev. auto.
+  destruct (if v =? 5 then _ else _) as [[pr b3]| | |] eqn:E3; cbn [bind] in H; try discriminate.
+  apply oprops_dec in E3; [|assumption]. destruct E3 as [Hpr Hb3].
+  destruct (negb (is_empty b3)); [discriminate|].
+  inversion H; subst. split; [|eauto]. cbn [dec_inv]. auto.
 Qed.
 
 Lemma parse_suback_inv : forall v b body,
@@ -135,7 +145,8 @@ Proof.
   destruct (read_uint16 b) as [[pid b1]| | |] eqn:E1; cbn [bind] in H; try discriminate.
   apply read_uint16_inv in E1; [|assumption]. destruct E1 as [Hp Hb1].
   destruct (is_v3x v) eqn:Ev.
-  { inversion H; subst. split; [|eauto]. cbn [dec_inv]. rewrite Ev. repeat split; auto. }
+  { destruct (negb (is_empty b1)); [discriminate|].
+    inversion H; subst. split; [|eauto]. cbn [dec_inv]. rewrite Ev. repeat split; auto. }
   destruct (props_unpack UNSUBACK b1) as [[p r]| | |] eqn:E3; cbn [bind] in H; try discriminate.
   apply props_unpack_inv in E3; [|assumption].
   unfold parse_codes in H. destruct r as [|c cs]; cbn [bind] in H; [discriminate|].
@@ -157,8 +168,10 @@ Proof.
     apply read_byte_inv in E2; [|assumption]. destruct E2 as (Hc & Hb2 & _).
     destruct (props_unpack DISCONNECT b2) as [[p r]| | |] eqn:E3; cbn [bind] in H; try discriminate.
     apply props_unpack_inv in E3; [|assumption].
+    destruct (negb (is_empty r)); [discriminate|].
     inversion H; subst. split; [|eauto]. cbn [dec_inv]. rewrite Ev. repeat split; auto. exists p. tauto.
-  - inversion H; subst. split; [|eauto]. cbn [dec_inv]. rewrite Ev. auto.
+  - destruct (negb (rl =? 0)); [discriminate|].
+    inversion H; subst. split; [|eauto]. cbn [dec_inv]. rewrite Ev. auto.
 Qed.
 
 Lemma parse_auth_inv : forall v b body,
@@ -169,6 +182,7 @@ Proof.
   apply read_byte_inv in E2; [|assumption]. destruct E2 as (Hc & Hb2 & _).
   destruct (props_unpack AUTH b2) as [[p r]| | |] eqn:E3; cbn [bind] in H; try discriminate.
   apply props_unpack_inv in E3; [|assumption].
+  destruct (negb (is_empty r)); [discriminate|].
   inversion H; subst. split; [|eauto]. cbn [dec_inv]. right. repeat split; auto. exists p. tauto.
 Qed.
 
@@ -182,17 +196,21 @@ Lemma eqb_cases : forall t, t < 16 ->
   \/ t = DISCONNECT \/ t = AUTH.
 Proof. intros. unfold CONNECT, CONNACK, PUBLISH, PUBACK, PUBREC, PUBREL, PUBCOMP, SUBSCRIBE, SUBACK, UNSUBSCRIBE, UNSUBACK, PINGREQ, PINGRESP, DISCONNECT, AUTH. lia. Qed.
 
+(* follow a chain of binds / tests in hypothesis H down to its final `Ok _ = Ok _` *)
+Ltac inv_chain H :=
+  repeat match type of H with
+         | bind ?r _ = _ => destruct r as [?| | |]; cbn [bind] in H; try discriminate
+         | (if ?c then _ else _) = _ => destruct c; try discriminate
+         | match ?x with _ => _ end = _ => destruct x; try discriminate
+         end.
+
 (* the decoder establishes dec_inv *)
 Lemma parse_body_inv : forall v fh b body,
   parse_body v fh b = Ok body -> bytes_ok b -> simple_body body = true -> dec_inv v body.
 Proof.
   intros v fh b body H Hb Hs. unfold parse_body in H.
   destruct (fh_type fh =? CONNECT) eqn:E1.
-  { exfalso. unfold parse_connect in H.
-    repeat match type of H with
-           | bind ?r _ = _ => destruct r as [[? ?]| | |]; cbn [bind] in H; try discriminate
-           | match ?x with _ => _ end = _ => destruct x; try discriminate
-           end; inversion H; subst; discriminate. }
+  { exfalso. unfold parse_connect in H. inv_chain H; inversion H; subst; discriminate. }
   destruct (fh_type fh =? CONNACK). { eapply (parse_connack_inv v); eauto. }
   destruct (fh_type fh =? PUBLISH).
   { destruct (publish_flags (fh_flags fh)) as [[[dup qos] retain]| | |] eqn:Ef; cbn [bind] in H; try discriminate.
@@ -203,18 +221,10 @@ Proof.
     destruct (parse_ack_inv _ _ _ _ _ Ht H Hb) as [Hd _]. exact Hd. }
   destruct (fh_type fh =? PUBREL). { eapply parse_pubrel_inv; eauto. }
   destruct (fh_type fh =? SUBSCRIBE).
-  { exfalso. unfold parse_subscribe in H.
-    repeat match type of H with
-           | bind ?r _ = _ => destruct r as [[? ?]| | |]; cbn [bind] in H; try discriminate
-           | bind ?r _ = _ => destruct r; cbn [bind] in H; try discriminate
-           end; inversion H; subst; discriminate. }
+  { exfalso. unfold parse_subscribe in H. inv_chain H; inversion H; subst; discriminate. }
   destruct (fh_type fh =? SUBACK). { eapply parse_suback_inv; eauto. }
   destruct (fh_type fh =? UNSUBSCRIBE).
-  { exfalso. unfold parse_unsubscribe in H.
-    repeat match type of H with
-           | bind ?r _ = _ => destruct r as [[? ?]| | |]; cbn [bind] in H; try discriminate
-           | bind ?r _ = _ => destruct r; cbn [bind] in H; try discriminate
-           end; inversion H; subst; discriminate. }
+  { exfalso. unfold parse_unsubscribe in H. inv_chain H; inversion H; subst; discriminate. }
   destruct (fh_type fh =? UNSUBACK). { eapply parse_unsuback_inv; eauto. }
   destruct (fh_type fh =? DISCONNECT). { eapply parse_disconnect_inv; eauto. }
   destruct (fh_type fh =? AUTH). { eapply parse_auth_inv; eauto. }
